@@ -951,7 +951,12 @@ def load(f, **options):  # type: (typing.IO, **typing.Any) -> canmatrix.CanMatri
             ecu.name = ecu.attributes.get("SystemNodeLongSymbol")[1:-1]
             ecu.del_attribute("SystemNodeLongSymbol")
     for frame in db.frames:
-        frame.cycle_time = int(float(frame.attributes.get("GenMsgCycleTime", 0)))
+        try:
+            frame.cycle_time = int(float(frame.attributes.get("GenMsgCycleTime", 0)))
+        except ValueError:
+            # a cycle time that is no number is skipped like any other malformed line
+            logger.error("frame %s: invalid GenMsgCycleTime %s ignored", frame.name, frame.attributes.get("GenMsgCycleTime"))
+            frame.del_attribute("GenMsgCycleTime")
         if frame.attributes.get("SystemMessageLongSymbol", None) is not None:
             frame.name = frame.attributes.get("SystemMessageLongSymbol")[1:-1]
             frame.del_attribute("SystemMessageLongSymbol")
@@ -969,9 +974,18 @@ def load(f, **options):  # type: (typing.IO, **typing.Any) -> canmatrix.CanMatri
                 default_value = signal.phys2raw(float_factory(db.signal_defines["GenSigStartValue"].defaultValue))
             else:
                 default_value = signal.phys2raw(None)
-            gen_sig_start_value = float_factory(signal.attributes.get("GenSigStartValue", default_value))
+            try:
+                gen_sig_start_value = float_factory(signal.attributes.get("GenSigStartValue", default_value))
+            except (ValueError, ArithmeticError):
+                logger.error("signal %s: invalid GenSigStartValue %s ignored", signal.name, signal.attributes.get("GenSigStartValue"))
+                signal.del_attribute("GenSigStartValue")
+                gen_sig_start_value = float_factory(default_value)
             signal.initial_value = (gen_sig_start_value * signal.factor) + signal.offset
-            signal.cycle_time = int(signal.attributes.get("GenSigCycleTime", 0))
+            try:
+                signal.cycle_time = int(signal.attributes.get("GenSigCycleTime", 0))
+            except ValueError:
+                logger.error("signal %s: invalid GenSigCycleTime %s ignored", signal.name, signal.attributes.get("GenSigCycleTime"))
+                signal.del_attribute("GenSigCycleTime")
             if signal.attribute("SystemSignalLongSymbol") is not None:
                 signal.name = signal.attribute("SystemSignalLongSymbol")[1:-1]
                 signal.del_attribute("SystemSignalLongSymbol")
